@@ -150,6 +150,28 @@ def run(rep, drv):
 				report('discrete(frozen scipy object, call history)', 'call %d of the history: discrete losses (%r,%r,%r,%r) but the definitions give %s' % (
 					len(seq), n, nb, n2, nb2, [float(v) for v in d]), case, [n, nb, n2, nb2], [float(v) for v in d], True); break
 
+	# ---- standard normal loss table -----------------------------------------
+	for k in range(max(4, N // 40)):
+		start = rng.choice([-4, -1.5, 0]); stop = start + rng.choice([0.5, 2, 4]); step = rng.choice([0.25, 0.5, 0.125])
+		comp = rng.random() < .5
+		case = {'start': start, 'stop': stop, 'step': step, 'complementary': comp}
+		rep.case('standard_normal_loss_dict', case)
+		try:
+			tab = lf.standard_normal_loss_dict(start, stop, step, comp)
+			want = []
+			z = start
+			while z < stop:
+				want.append(z); z += step
+			ok = list(tab.keys()) == want and all(close(tab[zz], lf.standard_normal_loss(zz)[1 if comp else 0], 1e-12) for zz in want)
+			# and the table is the loss function: Lbar(z) - L(z) = z
+			other = lf.standard_normal_loss_dict(start, stop, step, not comp)
+			ok = ok and all(close((tab[zz] - other[zz]) * (1 if comp else -1), zz, 1e-9) for zz in want)
+		except Exception as e:
+			ok = False
+		rep.tol_cmp += 1
+		if not ok:
+			report('standard_normal_loss_dict', 'table does not hold the standard normal loss values at start, start+step, ... < stop', case, None, None, True)
+
 	# ---- discrete families -------------------------------------------------
 	for k in range(N // 2):
 		fam = rng.choice(['poisson', 'geometric', 'negbin', 'negbin-ms'])
